@@ -748,7 +748,7 @@ def forwarded_scalars(F, R, rid="C17-K13"):
                 else:
                     R.bad(rid, key, site, "scalar argument %d of %s is `%s`, not the method's own parameter: the backend rescales the caller's scalar on the way "
                           "to the kernel" % (i, p.split("::")[-1], vt_str(v)[:80]))
-    R.floor(rid, 5)
+    R.floor(rid, 3)     # axpy, axpy_out and at least one flow kernel take the caller's scalar
 
 
 DATA_MOVEMENT = ("new_array", "new_eig_vectors", "new_eig_values", "read_from_slice", "write_to_slice", "copy_into", "fill_array", "eigs_as_array")
